@@ -26,7 +26,7 @@ ASSUMPTIONS = [
     "the delimiter is not made of white space only (tokens are stripped)",
 ] + c01.ASSUMPTIONS
 TRUSTED = c01.TRUSTED
-NOT_THEOREMS = ['the per-token law TokLaw for float and date fields (proved for integers, literals, missing values; Props.C11.main takes it as hypothesis): evaluated per case',
+NOT_THEOREMS = ['the per-token law TokLaw for float fields (proved for integers, literals, dates, missing values; Props.C11.main takes it as hypothesis): evaluated per case',
                 'padding clause when the delimiter itself contains a blank (Props.C11.main assumes a blank-free delimiter for that clause): evaluated per case']
 EXHAUSTIVE = {"quick": False, "thorough": False}
 DELIMS = [";", ",", "|", "\t", "::", ";;", ";", ", ", "; ", " | ", " :", "\t;"]
